@@ -6,7 +6,9 @@ use crate::core::{replay_report, Ctx, Failure};
 
 pub mod c07;
 pub mod c08;
+pub mod c10;
 pub mod c11;
+pub mod c12;
 pub mod c15;
 pub mod c16;
 
@@ -14,7 +16,9 @@ pub fn run(ctx: &Ctx) -> i32 {
     match ctx.prop {
         "C07" => c07::run(ctx),
         "C08" => c08::run(ctx),
+        "C10" => c10::run(ctx),
         "C11" => c11::run(ctx),
+        "C12" => c12::run(ctx),
         "C15" => c15::run(ctx),
         "C16" => c16::run(ctx),
         _ => {
@@ -28,7 +32,9 @@ pub fn replay(prop: &'static str, path: &str) -> i32 {
     let f: Box<dyn Fn(&J) -> Vec<Failure>> = match prop {
         "C07" => Box::new(c07::replay),
         "C08" => Box::new(c08::replay),
+        "C10" => Box::new(c10::replay),
         "C11" => Box::new(c11::replay),
+        "C12" => Box::new(c12::replay),
         "C15" => Box::new(c15::replay),
         "C16" => Box::new(c16::replay),
         _ => {
